@@ -35,6 +35,10 @@ LOCAL = '10.0.0.1'
 NEIGHBORS = ['10.0.0.2', '10.0.0.3', '10.0.0.4']
 
 
+# names exabgp prints for the well-known community values
+WELL_KNOWN = {'65535:65281': 'no-export', '65535:65282': 'no-advertise', '65535:65283': 'no-export-subconfed', '65535:65284': 'no-peer', '65535:666': 'blackhole'}
+
+
 def counts(tier: str):
     return (1000, 75.0) if tier == 'quick' else (20000, 900.0)
 
@@ -48,7 +52,7 @@ def generate(rng, tier: str, index: int) -> dict:
         'rise': rng.randint(1, 5), 'fall': rng.randint(1, 5), 'withdraw_on_down': rng.chance(0.4), 'debounce': rng.chance(0.3),
         'up_metric': rng.choice([100, 10, 0]), 'down_metric': rng.choice([1000, 500]), 'disabled_metric': rng.choice([500, 700]),
         'increase': rng.choice([1, 10, 0]), 'ips': ips, 'no_ack': rng.chance(0.2),
-        'community': rng.choice([None, '65000:1', '65000:1 65000:2']), 'disabled_community': rng.choice([None, None, '65000:666']),
+        'community': rng.choice([None, '65000:1', '65000:1 65000:2', '65535:65281', '0:0 65535:65535']), 'disabled_community': rng.choice([None, None, '65000:666', '65535:0']),
         'large_community': rng.choice([None, None, '65000:1:2']), 'extended_community': rng.choice([None, None, 'target:65000:1']),
         'as_path': rng.choice([None, None, '65010 65011']), 'up_as_path': rng.choice([None, None, '65020']), 'down_as_path': rng.choice([None, None, '65030 65030 65030']),
         'disabled_as_path': rng.choice([None, None, '65040']), 'local_preference': rng.choice([-1, -1, 200]),
@@ -458,7 +462,7 @@ def run_daemon(plan: dict, lines: list[str]):
                     route = next(r for r in peer.neighbor.rib.outgoing.cached_routes() if r.extensive().startswith(d['ip'].replace('/32', '/32')))
                     ext = route.extensive()
                     for token, val in (('as-path', d['aspath']), ('community', d['community'])):
-                        if val and not all(part in ext for part in val.split()):
+                        if val and not all(part in ext or WELL_KNOWN.get(part, '\x00') in ext for part in val.split()):
                             violations.append(viol('C20/attribute-lost', f'{token} {val!r} of {text.strip()!r} is not in the route the daemon holds: {ext}'))
                             break
                 elif ip in selected and d['action'] == 'withdraw':
